@@ -151,10 +151,15 @@ VP_HARNESS(h_sets)
   unsigned long tf = vp_in_bool() ? HWLOC_TOPOLOGY_FLAG_INCLUDE_DISALLOWED : 0;
   struct hwloc_topology *t = vp_seed_build(SEED, 0); struct vp_seed S = vp_seed;
   t->flags = tf;
+#if SEED == 5
+  VP_CHECK(t->slevels[HWLOC_SLEVEL_MEMCACHE].nbobjs == 2 && S.numa[0]->parent == S.memcache[0] && S.memcache[0]->parent == S.pkg[0] && S.numa[1]->parent == S.memcache[1], "seed S5: each NUMA node hangs below a memory-side cache below its package");
+#endif
   /* every object that carries sets, parents before children: normal levels in order, then the NUMA nodes */
   hwloc_obj_t ob[MAXS]; unsigned no = 0;
   for (unsigned d = 0; d < t->nb_levels; d++) for (unsigned k = 0; k < t->level_nbobjects[d]; k++) ob[no++] = t->levels[d][k];
   unsigned nnorm = no;
+  /* memory-side caches before the NUMA nodes they lead to (parents before children) */
+  for (unsigned k = 0; k < t->slevels[HWLOC_SLEVEL_MEMCACHE].nbobjs; k++) ob[no++] = t->slevels[HWLOC_SLEVEL_MEMCACHE].objs[k];
   for (unsigned k = 0; k < t->slevels[HWLOC_SLEVEL_NUMANODE].nbobjs; k++) ob[no++] = t->slevels[HWLOC_SLEVEL_NUMANODE].objs[k];
   /* arbitrary contents, assuming only what insertion guarantees: PUs and NUMA nodes are singletons of their os_index,
    * a normal child's cpuset is included in its parent's, complete_cpuset contains cpuset */
@@ -162,6 +167,7 @@ VP_HARNESS(h_sets)
     hwloc_obj_t o = ob[i]; unsigned long c, cc, n, cn;
     if (o->type == HWLOC_OBJ_PU) { c = 1UL << o->os_index; n = vp_in_range(0, 7); }
     else if (o->type == HWLOC_OBJ_NUMANODE) { c = vp_in_range(0, 63); n = 1UL << o->os_index; }
+    else if (o->type == HWLOC_OBJ_MEMCACHE) { c = vp_in_range(0, 63); n = vp_w(o->nodeset); }      /* a memory-side cache keeps the nodeset it was attached with */
     else { c = vp_in_range(0, 63); n = vp_in_range(0, 7); }
     cc = vp_in_range(0, 63); cn = vp_in_range(0, 7);
     VP_ASSUME(!(c & ~cc) && !(n & ~cn));
